@@ -482,6 +482,22 @@ func (ex *exec) call(st *State, x *ssa.Call) {
 			}
 		}
 	}
+	if (ex.useEval || fc.mentions("evalcount(")) && !fc.Pure {
+		// (also when only the callee's contract speaks about the counts: its postcondition relates the count after
+		// the call to the count before it, so the two must be different versions)
+		eh := vc.evalCountHeap()
+		if strings.HasPrefix(key, "functype:") && fc.HasAssigns {
+			// a call through a function value under a function-type contract: counted
+			before := vc.heapGet(pre, eh)
+			f := ex.val(c.Value).T
+			vc.heapSet(st, eh, "(store "+before+" "+f+" (+ (select "+before+" "+f+") 1))")
+		} else {
+			// any other impure callee may call function values itself: the counts can only grow
+			before := vc.heapGet(pre, eh)
+			after := vc.heapHavoc(st, eh)
+			vc.addLine("(assert (forall ((f! Int)) (! (>= (select " + after + " f!) (select " + before + " f!)) :pattern ((select " + after + " f!)))))")
+		}
+	}
 	// results
 	var results []Val
 	var rs *readSet
